@@ -2,8 +2,10 @@
 # integrate.sh <agent-id>: merge /work/<id>/verif main into /verif, regenerate assembled files.
 set -u
 cd /verif
+if ! git diff --quiet || ! git diff --cached --quiet; then echo "working tree not clean: commit your own edits first (a dirty tree once made the merge abort silently and a builder's work was nearly lost)"; exit 1; fi
 git fetch -q /work/$1/verif ${2:-main} || exit 1
 git merge --no-commit --no-ff FETCH_HEAD > /tmp/merge.log 2>&1
+if [ ! -f .git/MERGE_HEAD ] && ! git merge-base --is-ancestor FETCH_HEAD HEAD; then echo "merge did not start:"; cat /tmp/merge.log; exit 1; fi
 for f in MANIFEST.json known_findings.json; do git checkout --ours $f 2>/dev/null; done
 for f in $(git diff --name-only --diff-filter=U); do
   case $f in
